@@ -83,7 +83,7 @@ func parseFuncs(p *Prog) []*ssa.Function {
 }
 
 func checkC16(p *Prog, r *Report) {
-	r.Explain("TOTAL: every index, slice, integer division, type assertion and explicit panic in every UnmarshalText/UnmarshalJSON/UnmarshalBinary/UnmarshalMsg/DecodeMsg/Decode/ParseString method and every *FromString/*FromBytes/Identify* function of the library, and in the library functions they call, is an obligation for the E3 bounds prover; these are entry points, so nothing may be required of their arguments and recover frames give no credit. ENUMRT: for every integer type with MarshalText and UnmarshalText, folding the name tables gives UnmarshalText(MarshalText(c)) == c for every declared constant c with a name of its own. MSGP: for every type with generated MessagePack code the kinds written by EncodeMsg and MarshalMsg equal the kinds read by DecodeMsg and UnmarshalMsg, every conversion between the declared type and the wire type keeps width and signedness, and the constant returned by Msgsize is at least the sum of the sizes of what is written. OWNBYTES: the byte slice returned by every MarshalText/MarshalJSON/MarshalBinary/MarshalMsg/AppendText method does not alias library package-level storage (a caller appending to or editing the text it was handed would otherwise rewrite the name table that later calls marshal from). NUMPARSE: in every UnmarshalText of a float-valued type the value stored through the receiver is (a conversion of) a strconv.ParseFloat result or a constant, never the result of floating-point arithmetic on separately parsed digits (which rounds twice). CODEC: Encode and Decode of the hashes touch the same 8-byte windows in the same word order through a same-order encodeFn/decodeFn pair that is never reassigned. Numeric round trips (bit packing of ExposureBias over all values, floats at textual precision) are run-time arithmetic and are not decided.")
+	r.Explain("TOTAL: every index, slice, integer division, type assertion and explicit panic in every UnmarshalText/UnmarshalJSON/UnmarshalBinary/UnmarshalMsg/DecodeMsg/Decode/ParseString method and every *FromString/*FromBytes/Identify* function of the library, and in the library functions they call, is an obligation for the E3 bounds prover; these are entry points, so nothing may be required of their arguments and recover frames give no credit. ENUMRT: for every integer type with MarshalText and UnmarshalText, folding the name tables gives UnmarshalText(MarshalText(c)) == c for every declared constant c with a name of its own. MSGP: for every type with generated MessagePack code the kinds written by EncodeMsg and MarshalMsg equal the kinds read by DecodeMsg and UnmarshalMsg, every conversion between the declared type and the wire type keeps width and signedness, and the constant returned by Msgsize is at least the sum of the sizes of what is written. OWNBYTES: the byte slice returned by every MarshalText/MarshalJSON/MarshalBinary/MarshalMsg/AppendText method does not alias library package-level storage (a caller appending to or editing the text it was handed would otherwise rewrite the name table that later calls marshal from). NUMPARSE: in every UnmarshalText of a float-valued type the value stored through the receiver is (a conversion of) a strconv.ParseFloat result or a constant, never the result of floating-point arithmetic on separately parsed digits (which rounds twice). FLOATW: a strconv.ParseFloat with bitSize 32 in package meta has its result converted to a float32 type and nothing else. CODEC: Encode and Decode of the hashes touch the same 8-byte windows in the same word order through a same-order encodeFn/decodeFn pair that is never reassigned. Numeric round trips (bit packing of ExposureBias over all values, floats at textual precision) are run-time arithmetic and are not decided.")
 	r.Trusted("strconv and msgp primitives are bounds-checked and never panic", "map reads never panic", "strings/bytes Index*, LastIndex*: -1 <= r <= len(s)-1 (<= len(s) for substring searches)")
 	dec := libMethodsNamed(p, decoderMethodNames)
 	pf := parseFuncs(p)
@@ -108,6 +108,8 @@ func checkC16(p *Prog, r *Report) {
 	ruleTA(p, r, fs, emptyCont)
 	r.Floor("TOTAL", 25)
 	ruleNumParse(p, r)
+	ruleFloatWidth(p, r, "FLOATW", "meta")
+	r.Floor("FLOATW", 2)
 	r.Floor("NUMPARSE", 2)
 	ruleLenFold(p, r, "TOTAL")
 	ruleEnumRT(p, r)
